@@ -26,6 +26,10 @@ pub struct W {
     /// under the same seed), by the `accounts.id` of their database row
     pub acct_rows: Vec<i64>,
     pub acct_ids: Vec<zcash_client_sqlite::AccountUuid>,
+    /// the wallet birthday the harness configured (absolute height)
+    pub birthday: u32,
+    /// commitments in the Sapling / Orchard / Ironwood tree as of block `base`
+    pub init_sizes: [u64; 3],
 }
 
 fn second_account(st: &mut St) -> (Vec<Keys>, Vec<i64>, Vec<zcash_client_sqlite::AccountUuid>) {
@@ -80,7 +84,7 @@ impl W {
         let mut st = st;
         let base = u32::from(st.sapling_activation_height()) - 1;
         let (keys, acct_rows, acct_ids) = second_account(&mut st);
-        (W { st, net, base, acct_rows, acct_ids }, keys)
+        (W { st, net, base, acct_rows, acct_ids, birthday: base + 1, init_sizes: [0; 3] }, keys)
     }
 
     /// A wallet born into a chain whose Sapling and Orchard trees already hold `sap`/`orch` commitments (the
@@ -112,7 +116,67 @@ impl W {
         let init = st.latest_cached_block().unwrap().chain_state().clone();
         let base = u32::from(init.block_height());
         let (keys, acct_rows, acct_ids) = second_account(&mut st);
-        (W { st, net, base, acct_rows, acct_ids }, keys, init)
+        (W { st, net, base, acct_rows, acct_ids, birthday: base + 1, init_sizes: [sap, orch, 0] }, keys, init)
+    }
+
+    /// As `sharded`, for the scan-queue histories of C15: all three trees may be non-empty (`sizes`), the wallet
+    /// is NOT told the roots of the shards completed before its first block (they are returned, to be supplied
+    /// later through `put_root` at heights of the caller's choosing, as a server would), and with `early` the
+    /// account's birthday is the Sapling activation height, `gap` blocks below the first fabricated block, so
+    /// that shard boundaries can lie between the birthday and the blocks the harness chain serves.
+    pub fn sharded_ext(ironwood: bool, sizes: [u64; 3], early: bool, gap: u32)
+        -> (W, Vec<Keys>, zcash_client_backend::data_api::chain::ChainState, Vec<(Pool, u64, [u8; 32])>) {
+        use incrementalmerkletree::frontier::Frontier;
+        use std::num::NonZeroU8;
+        use zcash_client_backend::data_api::{chain::ChainState, testing::InitialChainState};
+        let net = network(ironwood);
+        let priors = std::cell::RefCell::new(vec![]);
+        let b = TestBuilder::new()
+            .with_network(net)
+            .with_data_store_factory(TestDbFactory::default())
+            .with_block_cache(BlockCache::new())
+            .with_initial_chain_state(|rng, network| {
+                use zcash_protocol::consensus::{NetworkUpgrade, Parameters};
+                let a0 = network.activation_height(NetworkUpgrade::Sapling).unwrap();
+                let (sroots, sfr): (Vec<sapling::Node>, crate::chain::SapFrontier) = Frontier::random_with_prior_subtree_roots(rng, sizes[0], NonZeroU8::new(16).unwrap());
+                let (oroots, ofr): (Vec<orchard::tree::MerkleHashOrchard>, crate::chain::OrchFrontier) = Frontier::random_with_prior_subtree_roots(rng, sizes[1], NonZeroU8::new(16).unwrap());
+                let (iroots, ifr): (Vec<orchard::tree::MerkleHashOrchard>, crate::chain::OrchFrontier) = if ironwood && sizes[2] > 0 {
+                    Frontier::random_with_prior_subtree_roots(rng, sizes[2], NonZeroU8::new(16).unwrap())
+                } else {
+                    (vec![], Frontier::empty())
+                };
+                let mut p = priors.borrow_mut();
+                for (i, r) in sroots.iter().enumerate() { p.push((Pool::Sapling, i as u64, r.to_bytes())); }
+                for (i, r) in oroots.iter().enumerate() { p.push((Pool::Orchard, i as u64, r.to_bytes())); }
+                for (i, r) in iroots.iter().enumerate() { p.push((Pool::Ironwood, i as u64, r.to_bytes())); }
+                InitialChainState {
+                    chain_state: ChainState::new(a0 + gap - 1, BlockHash([7; 32]), sfr, ofr, ifr),
+                    prior_sapling_roots: vec![],
+                    prior_orchard_roots: vec![],
+                }
+            });
+        let b = if early { b.with_account_from_sapling_activation(BlockHash([0; 32])) } else { b.with_account_having_current_birthday() };
+        let mut st = b.build();
+        let init = st.latest_cached_block().unwrap().chain_state().clone();
+        let base = u32::from(init.block_height());
+        let birthday = if early { u32::from(st.sapling_activation_height()) } else { base + 1 };
+        let (keys, acct_rows, acct_ids) = second_account(&mut st);
+        let isz = [sizes[0], sizes[1], if ironwood { sizes[2] } else { 0 }];
+        (W { st, net, base, acct_rows, acct_ids, birthday, init_sizes: isz }, keys, init, priors.into_inner())
+    }
+
+    /// What the scan-queue specification (C15, WalletQueue.tla) needs to know about this wallet: its birthday, the
+    /// activation heights the found-note extension falls back to for the first shard of each pool, and the initial
+    /// tree sizes (heights relative to `base`).
+    pub fn queue_config(&self) -> Value {
+        use zcash_protocol::consensus::{NetworkUpgrade, Parameters};
+        let mut act = vec![];
+        for (code, nu) in [("S", NetworkUpgrade::Sapling), ("O", NetworkUpgrade::Nu5), ("I", NetworkUpgrade::Nu6_3)] {
+            if let Some(h) = self.net.activation_height(nu) {
+                act.push(json!([code, self.rel(u32::from(h))]));
+            }
+        }
+        json!({"bday": self.rel(self.birthday), "act": act, "sizes": self.init_sizes})
     }
 
     /// put_{sapling,orchard,ironwood}_subtree_roots for one completed shard of the harness chain
@@ -131,6 +195,27 @@ impl W {
             Pool::Ironwood => st
                 .wallet_mut()
                 .put_ironwood_subtree_roots(index, &[CommitmentTreeRoot::from_parts(BlockHeight::from(end_height), orchard::tree::MerkleHashOrchard::from_bytes(&root).unwrap())])
+                .map_err(|e| format!("{e:?}")),
+        })
+    }
+
+    /// put_*_subtree_roots for consecutive shards starting at `start`, in one call: (root, end height) each
+    pub fn put_roots_from(&mut self, pool: Pool, start: u64, roots: &[([u8; 32], u32)]) -> Result<Result<(), String>, String> {
+        use zcash_client_backend::data_api::{WalletCommitmentTrees, chain::CommitmentTreeRoot};
+        let st = &mut self.st;
+        let roots = roots.to_vec();
+        guarded(move || match pool {
+            Pool::Sapling => st
+                .wallet_mut()
+                .put_sapling_subtree_roots(start, &roots.iter().map(|(r, h)| CommitmentTreeRoot::from_parts(BlockHeight::from(*h), sapling::Node::from_bytes(*r).unwrap())).collect::<Vec<_>>())
+                .map_err(|e| format!("{e:?}")),
+            Pool::Orchard => st
+                .wallet_mut()
+                .put_orchard_subtree_roots(start, &roots.iter().map(|(r, h)| CommitmentTreeRoot::from_parts(BlockHeight::from(*h), orchard::tree::MerkleHashOrchard::from_bytes(r).unwrap())).collect::<Vec<_>>())
+                .map_err(|e| format!("{e:?}")),
+            Pool::Ironwood => st
+                .wallet_mut()
+                .put_ironwood_subtree_roots(start, &roots.iter().map(|(r, h)| CommitmentTreeRoot::from_parts(BlockHeight::from(*h), orchard::tree::MerkleHashOrchard::from_bytes(r).unwrap())).collect::<Vec<_>>())
                 .map_err(|e| format!("{e:?}")),
         })
     }
@@ -245,6 +330,21 @@ impl W {
                 json!([rel(Some(s)), rel(Some(e)), p / 10])
             })
             .collect();
+        // subtree (shard) end heights the wallet knows, per pool: [shard index, end height]
+        let mut shards = serde_json::Map::new();
+        for pool in [Pool::Sapling, Pool::Orchard, Pool::Ironwood] {
+            let rows: Vec<Value> = conn
+                .prepare(&format!("SELECT shard_index, subtree_end_height FROM {}_tree_shards WHERE subtree_end_height IS NOT NULL ORDER BY shard_index", pool.table()))
+                .unwrap()
+                .query_map([], |r| Ok((r.get::<_, u64>(0)?, r.get::<_, u32>(1)?)))
+                .unwrap()
+                .map(|r| {
+                    let (i, h) = r.unwrap();
+                    json!([i, rel(Some(h))])
+                })
+                .collect();
+            shards.insert(pool.code().to_string(), Value::Array(rows));
+        }
         let summary = self.st.wallet().get_wallet_summary(ConfirmationsPolicy::MIN).unwrap();
         let zero = json!({"S": [0, 0], "O": [0, 0], "I": [0, 0]});
         let bals: Vec<Option<Value>> = self
@@ -269,6 +369,7 @@ impl W {
             "blocks": blocks,
             "notes": notes,
             "queue": queue,
+            "shards": Value::Object(shards),
             "bal": bal.unwrap_or(zero),
         })
     }
